@@ -6,6 +6,7 @@ mod poller;
 mod world;
 mod crash;
 mod threads;
+mod header;
 mod wire;
 mod rng;
 mod util;
@@ -29,7 +30,7 @@ fn exec_line(line: &str) -> String {
         Some("slx") => ra::exec_slx(&toks),
         Some("slaba") => ra::exec_slaba(),
         Some("upd") => daemon::exec_upd(line),
-        _ => "bad-op".into(),
+        _ => header::exec(&toks, line).unwrap_or_else(|| "bad-op".into()),
     }
 }
 
@@ -101,6 +102,13 @@ fn main() {
             // worker threads of a daemon that did not exit may still be alive
             std::process::exit(if line.contains("=> returned") { 0 } else { 3 });
         }
+        Some(k @ ("hdr-open" | "hdr-seg" | "hdr-snap" | "hdr-sandwich")) => {
+            let seed: u64 = args[2].parse().unwrap();
+            let count: usize = args[3].parse().unwrap();
+            let v = match k { "hdr-open" => header::gen_open(seed, count), "hdr-seg" => header::gen_seg(seed, count), "hdr-snap" => header::gen_snap(seed, count), _ => header::gen_sandwich(seed, count) };
+            for g in v { emit(g); }
+        }
+        Some("hdr-abi") => { emit("cabi".to_string()); }
         Some("crashgrid") => { for g in crash::grid() { emit(g); } }
         Some("slabagen") => { emit("slaba".to_string()); }
         Some("slxgen") => {
